@@ -1171,6 +1171,19 @@ class Emit:
                 return la + [f"let {v} ← (if {xa} = true then pure true else {inner} : Outcome Bool)"], v
             j = "&&" if op == "&&" else "||"
             return la, f"({xa} {j} {xb})"
+        if op in ("<", ">", "<=", ">=") and self.type_of(a) == "Decimal" and "decimal_partial_cmp" in self.sigs:
+            # PartialOrd on Decimals: the provided methods `lt/le/gt/ge` are defined through `partial_cmp`
+            la, xa = self.ex(a, "Decimal")
+            lb, xb = self.ex(b, "Decimal")
+            v = self.fresh()
+            want = {"<": ["lt"], "<=": ["lt", "eq"], ">": ["gt"], ">=": ["gt", "eq"]}[op]
+            test = " || ".join(f"decide ({v} = some Ordering.{w})" for w in want)
+            return la + lb + [f"let {v} ← K.decimal_partial_cmp prof ({xa}) ({xb})"], f"({test})"
+        if op == "-" and self.type_of(a) == "Decimal" and "decimal_sub" in self.sigs:
+            la, xa = self.ex(a, "Decimal")
+            lb, xb = self.ex(b, "Decimal")
+            v = self.fresh()
+            return la + lb + [f"let {v} ← K.decimal_sub prof ({xa}) ({xb})"], v
         if op in ("==", "!=", "<", ">", "<=", ">="):
             ta = self.type_of(a) if not (a[0] == "lit" and not a[2]) else None
             tb = self.type_of(b, ta) if not (b[0] == "lit" and not b[2]) else ta
@@ -2089,7 +2102,7 @@ class Emit:
 
 
 # ----------------------------------------------------------------------------- driver
-GROUP_IMPORTS = {"KMisc": ["Fpdec.Gen.KCmp", "Fpdec.Gen.KFromStr", "Fpdec.Gen.KIntoFloat", "Fpdec.Model.Float"], "KTls": [], "KFormat": ["Fpdec.Gen.KDivRounded", "Fpdec.Gen.Consts", "Fpdec.Model.Format"], "KParse": ["Fpdec.Gen.KSwar", "Fpdec.Gen.Consts", "Fpdec.Model.Parser"], "KMagn": ["Fpdec.Gen.KLog", "Fpdec.Gen.Consts", "Fpdec.Model.Decimal"], "KRatio": ["Fpdec.Gen.KPow", "Fpdec.Model.Decimal"], "KPow": ["Fpdec.Gen.Consts"], "KDivRounded": ["Fpdec.Gen.KRound", "Fpdec.Gen.KPow", "Fpdec.Model.Core"],
+GROUP_IMPORTS = {"KNumTraits": ["Fpdec.Gen.KCmp", "Fpdec.Gen.KAddSub", "Fpdec.Gen.KDecUnops", "Fpdec.Gen.KIntConv", "Fpdec.Gen.KFromStr", "Fpdec.Model.Decimal"], "KMisc": ["Fpdec.Gen.KCmp", "Fpdec.Gen.KFromStr", "Fpdec.Gen.KIntoFloat", "Fpdec.Model.Float"], "KTls": [], "KFormat": ["Fpdec.Gen.KDivRounded", "Fpdec.Gen.Consts", "Fpdec.Model.Format"], "KParse": ["Fpdec.Gen.KSwar", "Fpdec.Gen.Consts", "Fpdec.Model.Parser"], "KMagn": ["Fpdec.Gen.KLog", "Fpdec.Gen.Consts", "Fpdec.Model.Decimal"], "KRatio": ["Fpdec.Gen.KPow", "Fpdec.Model.Decimal"], "KPow": ["Fpdec.Gen.Consts"], "KDivRounded": ["Fpdec.Gen.KRound", "Fpdec.Gen.KPow", "Fpdec.Model.Core"],
                  "KDecDiv": ["Fpdec.Gen.KDivRounded"], "KDecMul": ["Fpdec.Gen.KDivRounded", "Fpdec.Model.Decimal"], "KNorm": [], "KFromStr": ["Fpdec.Gen.KPow", "Fpdec.Gen.Consts", "Fpdec.Model.Parser"], "KIntoFloat": ["Fpdec.Gen.Consts", "Fpdec.Model.Decimal"], "KIntOps": ["Fpdec.Gen.KDecDiv", "Fpdec.Gen.KNorm", "Fpdec.Gen.Consts", "Fpdec.Model.Decimal"], "KForward": ["Fpdec.Gen.KAddSub", "Fpdec.Gen.KDecOps"], "KIntConv": ["Fpdec.Gen.KPow", "Fpdec.Model.Decimal"], "KCmp": ["Fpdec.Gen.KPow", "Fpdec.Model.Decimal"], "KAddSub": ["Fpdec.Gen.KPow", "Fpdec.Model.Decimal"], "KDecUnops": ["Fpdec.Gen.KUnops", "Fpdec.Gen.KPow", "Fpdec.Model.Decimal"], "KDecOps": ["Fpdec.Gen.KDecDiv", "Fpdec.Gen.KDecMul", "Fpdec.Gen.KNorm", "Fpdec.Gen.Consts", "Fpdec.Model.Decimal"],
                  "KDecRound": ["Fpdec.Gen.KDivRounded", "Fpdec.Model.Decimal"],
                  "KFloat": ["Fpdec.Gen.KNorm", "Fpdec.Gen.Consts", "Fpdec.Model.Core", "Fpdec.Model.Decimal"], "KRem": ["Fpdec.Gen.KPow"], "KDecRem": ["Fpdec.Gen.KRem", "Fpdec.Model.Decimal"],
@@ -2260,6 +2273,17 @@ KERNELS = [
                                                     "rewrite": [(r"(impl From<Decimal> for f64 \{.*?)<Self as Float>::from_decimal\(d\)", r"\1f64_from_decimal(d)")]}),
     ("KMisc", "src/into_float.rs", "from", "f32", {"as": "f32_from", "occ": 1, "ret": "u64",
                                                     "rewrite": [(r"(impl From<Decimal> for f32 \{.*?)<Self as Float>::from_decimal\(d\)", r"\1f32_from_decimal(d)")]}),
+    ("KNumTraits", "src/num_traits.rs", "zero", "Decimal", {"as": "nt_zero"}),
+    ("KNumTraits", "src/num_traits.rs", "is_zero", "Decimal", {"as": "nt_is_zero"}),
+    ("KNumTraits", "src/num_traits.rs", "one", "Decimal", {"as": "nt_one"}),
+    ("KNumTraits", "src/num_traits.rs", "is_one", "Decimal", {"as": "nt_is_one"}),
+    ("KNumTraits", "src/num_traits.rs", "from_str_radix", "Decimal", {"as": "nt_from_str_radix", "err": "ParseDecimalError",
+                                                                     "ret": ("Result", "Decimal", "ParseDecimalError")}),
+    ("KNumTraits", "src/num_traits.rs", "abs", "Decimal", {"as": "nt_abs"}),
+    ("KNumTraits", "src/num_traits.rs", "abs_sub", "Decimal", {"as": "nt_abs_sub"}),
+    ("KNumTraits", "src/num_traits.rs", "signum", "Decimal", {"as": "nt_signum"}),
+    ("KNumTraits", "src/num_traits.rs", "is_positive", "Decimal", {"as": "nt_is_positive"}),
+    ("KNumTraits", "src/num_traits.rs", "is_negative", "Decimal", {"as": "nt_is_negative"}),
     ("KFormat", "src/format.rs", "from", "String", {"as": "string_from_decimal"}),
     ("KFormat", "src/format.rs", "fmt", "Decimal", {"as": "decimal_debug_fmt", "macro": ("impl_debug", 0, 0, None), "ret": "Written"}),
     ("KFormat", "src/format.rs", "fmt", "Decimal", {"as": "decimal_display_fmt", "ret": "Written", "occ": 1}),
